@@ -165,14 +165,13 @@ def _repr(res, index):
             res.bad("REPR-1", label + ":missing", f"{cls.module.relpath}:{cls.node.lineno}", f"{cls.name} has no __repr__")
             continue
         where = f"{fn.file}:{fn.lineno}"
-        rets = [n for n in ast.walk(fn.node) if isinstance(n, ast.Return) and n.value is not None]
+        from ..astutil import returns as _returns
+        rets = _returns(fn.node)          # returned expressions, looked through single-assignment temporaries
         if len(rets) != 1:
-            res.not_in_fragment.append(f"REPR {label}: not a single return")
-            continue
-        parts = _fstring_parts(rets[0].value)
+            raise AnalysisError(f"REPR {label}: not a single return (outside the decided fragment)")
+        parts = _fstring_parts(rets[0][1])
         if parts is None:
-            res.not_in_fragment.append(f"REPR {label}: not an f-string template")
-            continue
+            raise AnalysisError(f"REPR {label}: the returned value is not an f-string template (outside the decided fragment)")
         template = "".join(p if isinstance(p, str) else "\x00" for p in parts)
         m = re.fullmatch(r"coxeter\.shapes\.(\w+)\((.*)\)", template, re.S)
         if not m:
